@@ -1,4 +1,68 @@
-import SfxModel.Transcendental
+import SfxProofs.TransFacts
+/-
+  C13 — sqrt is accurate to a few units in the last place.
+  Everything is on bits: the operand `x` (layout `S`) is converted to the destination grid by the lossless `From`
+  (`x' = x · 2^(D.f − S.f)`), the true root of the value `x'/2^D.f` in destination ulps is `√(x'·2^D.f)`, so
+  "within 4 ulp" is the integer bracket `(r−4)² ≤ x'·2^D.f ≤ (r+4)²`.
+  Supported destinations: at least 4 fractional bits and three magnitude bits above the binary point (every type of the
+  property's quantifier — ≥ 23 fractional and ≥ 9 integer bits — satisfies this).
+-/
+attribute [-instance] Monoid.toNPow
 namespace Sfx.C13
-theorem placeholder : True := trivial
+open Sfx.SqrtPf Sfx.ConvPf Sfx.CmpPf Sfx.TransFacts
+
+/-- the source/destination pairs accepted by `D: From<S>`: the same type, or a widening admitted by `convert.rs` -/
+def Supp (S D : Layout) : Prop :=
+  S.valid ∧ D.valid ∧ 4 ≤ D.f ∧ (if D.signed then 4 else 3) ≤ D.intBits ∧ (S = D ∨ fromAdmissible S D)
+
+def C13_statement : Prop :=
+  ∀ S D : Layout, Supp S D → ∀ x : Int, inRange S x →
+    match Trans.run (Trans.sqrt S D x) with
+    | .ok (some r, _) dbg => dbg = false ∧ 0 ≤ x ∧ 0 ≤ r ∧
+        (if r < 4 then 0 else (r - 4) ^ 2) ≤ x * 2 ^ (D.f - S.f) * 2 ^ D.f ∧ x * 2 ^ (D.f - S.f) * 2 ^ D.f ≤ (r + 4) ^ 2 ∧
+        (x * 2 ^ (D.f - S.f) = 0 → r = 0) ∧ (x * 2 ^ (D.f - S.f) = 2 ^ D.f → r = 2 ^ D.f)
+    | .ok (none, _) dbg => dbg = false ∧
+        (x < 0 ∨ (0 < x * 2 ^ (D.f - S.f) ∧ ¬ inRange D (divSpec D.f (2 ^ D.f) (x * 2 ^ (D.f - S.f)))))
+    | .panic => False
+
+theorem lt_zero (S : Layout) (hS : S.valid) (x : Int) (hx : inRange S x) : S.ltFixed Trans.C x Trans.ZERO = decide (x < 0) := by
+  rw [ltFixed_spec S Trans.C hS C_valid x Trans.ZERO hx inC_zero]
+  apply decide_eq_decide.mpr
+  show cmpExact S.f 23 x Trans.ZERO = -1 ↔ x < 0
+  rw [cmp_lt_iff]
+  have := two_pow_pos 23
+  unfold Trans.ZERO
+  constructor <;> intro h <;> omega
+
+theorem holds : C13_statement := by
+  intro S D ⟨hS, hD, hf, hint, hSD⟩ x hx
+  have hc : ConvFacts D := convFacts D hD (by cases h : D.signed <;> simp [h] at hint ⊢ <;> omega)
+  have hS0 := lt_zero S hS x hx
+  rcases hSD with rfl | hadm
+  · have hfrom : Trans.fromS S S x = .ok (x * 2 ^ (S.f - S.f)) false := by
+      unfold Trans.fromS; rw [if_pos rfl]; simp; rfl
+    exact sqrt_accuracy_widen S S hD hf hint hc x hS0 hfrom (by simpa using hx)
+  · by_cases hEq : S = D
+    · subst hEq
+      have hfrom : Trans.fromS S S x = .ok (x * 2 ^ (S.f - S.f)) false := by
+        unfold Trans.fromS; rw [if_pos rfl]; simp; rfl
+      exact sqrt_accuracy_widen S S hD hf hint hc x hS0 hfrom (by simpa using hx)
+    · obtain ⟨h1, h2, _⟩ := fromLossless_spec S D hS hD hadm x hx
+      have hfrom : Trans.fromS S D x = .ok (x * 2 ^ (D.f - S.f)) false := by
+        unfold Trans.fromS; rw [if_neg hEq]; exact h1
+      exact sqrt_accuracy_widen S D hD hf hint hc x hS0 hfrom h2
+
+/-- on the direct path (operand above one) the result is the integer root of `x·2^f` or that plus one: within ONE ulp -/
+theorem direct_path_one_ulp (D : Layout) (hv : D.valid) (hf : 4 ≤ D.f) (hint : (if D.signed then 4 else 3) ≤ D.intBits)
+    (x : Int) (hx : inRange D x) (hxF : 2 ^ D.f < x) :
+    ∃ s r : Int, Trans.run (Trans.sqrt D D x) = .ok (some r, max D.f (D.intBits / 2 + 10)) false ∧
+      s * s ≤ x * 2 ^ D.f ∧ x * 2 ^ D.f < (s + 1) * (s + 1) ∧ s ≤ r ∧ r ≤ s + 1 :=
+  sqrt_direct_exact D hv hf hint (convFacts D hv (by cases h : D.signed <;> simp [h] at hint ⊢ <;> omega)) x hx hxF
+
+/-- non-vacuity: I96F32 (the layout whose large operands used to come out wrong), I9F23, and a widening pair -/
+example : Supp ⟨true, 128, 32⟩ ⟨true, 128, 32⟩ ∧ Supp ⟨true, 32, 23⟩ ⟨true, 32, 23⟩ ∧ Supp ⟨false, 64, 32⟩ ⟨true, 128, 64⟩ ∧
+    inRange ⟨true, 128, 32⟩ (2 ^ 120) := by
+  refine ⟨⟨by decide, by decide, by decide, by decide, Or.inl rfl⟩, ⟨by decide, by decide, by decide, by decide, Or.inl rfl⟩,
+    ⟨by decide, by decide, by decide, by decide, Or.inr (by unfold fromAdmissible; decide)⟩, by decide⟩
+
 end Sfx.C13
